@@ -376,7 +376,10 @@ func c01Purity(c *Ctx) {
 					case *ssa.Alloc:
 						ok = true
 					case *ssa.Parameter:
-						ok = strings.HasSuffix(typeStr(r.Type()), "ndp.RouterAdvertisement") && len(path) >= 1 && path[0] == "Options"
+						// plugins may only append options; helpers of the builder itself (package config) fill in
+						// the RA under construction, whose returned header is decided path-wise by R-C01-1 / R-C04-1
+						ok = strings.HasSuffix(typeStr(r.Type()), "ndp.RouterAdvertisement") && len(path) >= 1 &&
+							(path[0] == "Options" || (fn.Pkg != nil && fn.Pkg.Pkg.Path() == PkgConfig))
 						why = "store through parameter " + r.Name() + "." + strings.Join(path, ".")
 					case *ssa.Global:
 						why = "store to global " + r.Name()
